@@ -661,3 +661,42 @@ func (e *Explorer) Explore(t *testing.T, rep *Report) {
 		rep.Outcome(e.Sc.Name + "|" + o)
 	}
 }
+
+// Bubble runs f inside a synctest bubble starting at the scenario epoch (2020-01-01) with deterministic KSUID randomness.
+// Goroutines leaked by the code under test (blocked forever) do not fail the caller.
+func Bubble(t *testing.T, f func()) {
+	defer func() {
+		if r := recover(); r != nil {
+			s := fmt.Sprint(r)
+			if strings.Contains(s, "blocked goroutines remain") || strings.Contains(s, "deadlock: main bubble goroutine has exited") {
+				return
+			}
+			panic(r)
+		}
+	}()
+	synctest.Test(t, func(t *testing.T) {
+		time.Sleep(time.Date(2020, 1, 1, 0, 0, 0, 0, time.UTC).Sub(time.Now()))
+		ksuid.SetRand(detRand{rand.New(rand.NewSource(42))})
+		defer ksuid.SetRand(nil)
+		f()
+	})
+}
+
+// Await runs f in a goroutine of the current bubble and reports whether it returned once everything is quiescent
+// (false = f is blocked forever or waiting on a timer beyond the given fake duration).
+func Await(f func(), patience time.Duration) bool {
+	done := make(chan struct{})
+	go func() { f(); close(done) }()
+	synctest.Wait()
+	select {
+	case <-done:
+		return true
+	default:
+	}
+	select {
+	case <-done:
+		return true
+	case <-time.After(patience):
+		return false
+	}
+}
